@@ -18,6 +18,13 @@ see `OutOfDomain`): `ren`/`args` only on `TexCmd`/`TexNamedEnv` targets; `str` n
 leaves; `args` material must be expressions that `TexArgs` keeps (groups, commands); bare
 `str` elements (inserted plain strings) are not addressable as *targets* through the
 `TexNode` API (they have no node), they are only ever context.
+
+Transplanted material (`i:<source>@<path>`, `c:<path>`, see EditDriver.lean): a node taken from
+*inside* an argument / group / item body of a separately parsed snippet document, or a `.copy()`
+of a node of the edited document itself.  The library never copies expressions, so such a
+node is the same object in the snippet (resp. at its old place) and at its new place; `Sources`
+keeps the snippet documents and checks after every step that they are still what they were
+(`gen_transplant`, `transplant_pairs`, `run_transplant`).
 """
 import os
 import subprocess
@@ -25,9 +32,8 @@ import sys
 import zlib
 
 HERE = os.path.dirname(os.path.abspath(__file__))
-for _p in (HERE, '/verif/harness'):
-    if _p not in sys.path:
-        sys.path.insert(0, _p)
+if HERE not in sys.path:
+    sys.path.insert(0, HERE)
 import common                                           # noqa: E402
 from common import enc, dec, canon_root                 # noqa: E402
 
@@ -125,7 +131,96 @@ def node_for(soup, path):
 
 # ----------------------------------------------------------------------------- material
 
-def material(w, as_expr=False):
+def _subtree_ids(e):
+    """ids of every expression object of the subtree of e (e, its arguments, all contents)."""
+    from TexSoup import data as D
+    out, todo = set(), [e]
+    while todo:
+        x = todo.pop()
+        if not isinstance(x, D.TexExpr) or id(x) in out:
+            continue
+        out.add(id(x))
+        if not isinstance(x, D.TexText):
+            todo.extend(x.args)
+            todo.extend(x._contents)
+    return out
+
+
+class Sources(object):
+    """The snippet documents that transplanted material (`i:`) was taken from.  The expression
+    handed to the API is the very object that sits in the snippet, so the snippet shows whether
+    an edit of the main document was carried out somewhere else: after every step `check()`
+    compares each snippet with its text.  A step that edits *inside* the transplanted subtree
+    (its container/holder, or the node that is renamed / gets a new string or arguments, lies
+    in that subtree) changes the shared object and thereby, legitimately, the snippet: those
+    steps are counted in `excluded` and the snippet text is taken anew."""
+
+    def __init__(self):
+        self.items = []
+        self.excluded = 0
+
+    def add(self, snippet, expr):
+        self.items.append({'soup': snippet, 'text': str(snippet), 'ids': _subtree_ids(expr), 'touch': False})
+
+    def begin(self, soup, kind, path):
+        for it in self.items:
+            it['touch'] = False
+        if not self.items:
+            return
+        try:
+            chain = chain_of(soup, path)
+        except Exception:
+            return
+        rel = chain[:-1] if kind in ('del', 'rep') else chain
+        ids = set(id(e) for e in rel)
+        for it in self.items:
+            it['touch'] = bool(ids & it['ids'])
+
+    def check(self):
+        """None, or a message naming the snippet that an edit of the main document changed."""
+        bad = None
+        for it in self.items:
+            now = str(it['soup'])
+            if now != it['text']:
+                if it['touch']:
+                    self.excluded += 1
+                elif bad is None:
+                    bad = 'the document the new material was taken from changed: %r -> %r' % (it['text'], now)
+                it['text'] = now
+            it['touch'] = False
+        return bad
+
+
+def inner_material(w, sources=None, detach=False):
+    """`i:<encoded source>@<path>`: the node at `path` inside a freshly parsed snippet, as the
+    parented node that navigation gives (`snippet.textbf.emph`), or (`detach`) its `.copy()`."""
+    T = common.impl()
+    src, sel = w[2:].split('@')
+    sp = T.TexSoup(dec(src))
+    node = node_for(sp, parse_path(sel))
+    if sources is not None:
+        sources.add(sp, node.expr)
+    else:
+        node._snippet = sp                              # keep the snippet alive with the node
+    return T.data.TexNode(node.expr) if detach else node
+
+
+def copy_material(w, soup):
+    """`c:<path>`: `.copy()` of the node at `path` of the document being edited."""
+    if soup is None:
+        raise BadPath('c: material needs the document')
+    p = parse_path(w[2:])
+    if not p:
+        raise BadPath('root')
+    return node_for(soup, p).copy()
+
+
+def _detach(op_kind, w):
+    """`insert` demands parentless nodes; append/replace take both (drawn from the text)."""
+    return op_kind == 'ins' or bool(zlib.crc32(w.encode()) & 4)
+
+
+def material(w, as_expr=False, soup=None, sources=None, op_kind='app'):
     T = common.impl()
     kind, payload = w[0], w[2:]
     if kind == 'n':
@@ -144,16 +239,22 @@ def material(w, as_expr=False):
         if as_expr:
             raise OutOfDomain('plain string in an argument list')
         return dec(payload)
+    if kind == 'i':
+        n = inner_material(w, sources, _detach(op_kind, w))
+        return n.expr if as_expr else n
+    if kind == 'c':
+        n = copy_material(w, soup)
+        return n.expr if as_expr else n
     raise ValueError(w)
 
 
-def materials(w, as_expr=False):
-    return [] if w == '_' else [material(x, as_expr) for x in w.split(',')]
+def materials(w, as_expr=False, soup=None, sources=None, op_kind='app'):
+    return [] if w == '_' else [material(x, as_expr, soup, sources, op_kind) for x in w.split(',')]
 
 
 # ----------------------------------------------------------------------------- one op
 
-def apply_op(soup, op, salt=0, variant=None):
+def apply_op(soup, op, salt=0, variant=None, sources=None):
     """Apply one op to the real objects (raises on failure).  `del`/`rep` have two spellings
     in the API (`node.delete()` / `parent.remove(node)`, `node.replace_with` /
     `parent.replace`): `variant` 1 / 0 forces one, None draws it from a hash of (salt, op)."""
@@ -175,7 +276,7 @@ def apply_op(soup, op, salt=0, variant=None):
         if not p:
             raise BadPath('root')
         node = node_for(soup, p)
-        ms = materials(words[2])
+        ms = materials(words[2], False, soup, sources, 'rep')
         if coin:
             node.replace_with(*ms)
         else:
@@ -184,12 +285,12 @@ def apply_op(soup, op, salt=0, variant=None):
         node = node_for(soup, parse_path(words[1]))
         if isinstance(node.expr, D.TexText):
             raise OutOfDomain('text leaf as container')
-        node.insert(int(words[2]), *materials(words[3]))
+        node.insert(int(words[2]), *materials(words[3], False, soup, sources, 'ins'))
     elif kind == 'app':
         node = node_for(soup, parse_path(words[1]))
         if isinstance(node.expr, D.TexText):
             raise OutOfDomain('text leaf as container')
-        node.append(*materials(words[2]))
+        node.append(*materials(words[2], False, soup, sources, 'app'))
     elif kind == 'ren':
         p = parse_path(words[1])
         if not p:
@@ -213,7 +314,7 @@ def apply_op(soup, op, salt=0, variant=None):
         node = node_for(soup, p)
         if not isinstance(node.expr, (D.TexCmd, D.TexNamedEnv)):
             raise OutOfDomain('args of %s' % type(node.expr).__name__)
-        ms = materials(words[2], as_expr=True)
+        ms = materials(words[2], True, soup, sources, 'args')
         if not all(isinstance(m, (D.TexGroup, D.TexCmd)) for m in ms):
             raise OutOfDomain('TexArgs drops this material')
         node.args = D.TexArgs(ms)
@@ -221,9 +322,11 @@ def apply_op(soup, op, salt=0, variant=None):
         raise ValueError(op)
 
 
-def impl_edit(source, ops, detail=None, soup=None, variant=None):
+def impl_edit(source, ops, detail=None, soup=None, variant=None, sources=None):
     """Run a history on the real objects; answer in the driver's format.  `soup`: a prepared
-    tree of `source` (see `clone`) instead of a fresh parse; `variant`: see `apply_op`."""
+    tree of `source` (see `clone`) instead of a fresh parse; `variant`: see `apply_op`.  After
+    every step the snippet documents of transplanted material must be what they were
+    (`Sources`); otherwise the answer of the step is marked `SOURCE-CHANGED!`."""
     T = common.impl()
     if soup is None:
         try:
@@ -232,11 +335,18 @@ def impl_edit(source, ops, detail=None, soup=None, variant=None):
             raise
         except Exception as e:
             return common.classify_exc(e)
+    if sources is None:
+        sources = Sources()
     outs = []
     for k, op in enumerate(ops):
         before = canon_root(soup)
+        w = op.split(' ')
         try:
-            apply_op(soup, op, salt=k, variant=variant)
+            sources.begin(soup, w[0], parse_path(w[1]))
+        except Exception:
+            pass
+        try:
+            apply_op(soup, op, salt=k, variant=variant, sources=sources)
             outs.append(enc(str(soup)))
         except RecursionError:
             raise
@@ -247,6 +357,11 @@ def impl_edit(source, ops, detail=None, soup=None, variant=None):
                 outs.append('FAIL!MUTATED(%s)' % type(e).__name__)
             else:
                 outs.append('FAIL')
+        msg = sources.check()
+        if msg:
+            if detail is not None:
+                detail.append((k, op, msg))
+            outs[-1] = 'SOURCE-CHANGED!' + outs[-1]
     outs.append(canon_root(soup))
     return 'EDIT ' + ';'.join(outs)
 
@@ -339,10 +454,37 @@ ARG_MATS = ['g:' + enc('\\x[o]'), 'g:' + enc('\\x{a}'), 'g:' + enc('\\x{a \\x}')
             'n:' + enc('{n}'), 'g:' + enc('\\x{a}')]
 
 
-def gen_mats(rng, lo=1, hi=3):
+# (snippet source, path of the node inside it): nodes that were parsed inside an argument, a
+# brace group, an \\item body, a bracket argument, a group in a group, math in a group
+INNER_MATS = [('\\textbf{\\emph{hi}}', 'b0.a0:0'), ('{\\x}', 'b0.b0'), ('\\sec[o]{p \\x}', 'b0.a1:1'),
+              ('\\begin{itemize}\\item \\x y\\end{itemize}', 'b0.b0.b1'), ('{{g}}', 'b0.b0'),
+              ('\\y[\\x{a}]', 'b0.a0:0'), ('{$m$ y}', 'b0.b0'), ('\\textbf{b \\x}', 'b0.a0:1'),
+              ('\\begin{itemize}\\item[o] z {g}\\end{itemize}', 'b0.b0.b1'), ('{ y}', 'b0.b0')]
+
+
+def inner_mat(src, sel):
+    return 'i:%s@%s' % (enc(src), sel)
+
+
+_INNER_TEXT = {}
+
+
+def inner_text(src, sel):
+    if (src, sel) not in _INNER_TEXT:
+        T = common.impl()
+        _INNER_TEXT[(src, sel)] = str(chain_of(T.TexSoup(src), parse_path(sel))[-1])
+    return _INNER_TEXT[(src, sel)]
+
+
+def gen_mats(rng, lo=1, hi=3, inner=0.12):
+    """1..3 new items: nodes parsed at the top level of a snippet (`n:`), plain strings (`s:`)
+    and, with probability `inner` each, a node taken from inside a snippet (`i:`)."""
     out = []
     for _ in range(rng.randint(lo, hi)):
-        if rng.random() < 0.6:
+        r = rng.random()
+        if r < inner:
+            out.append(inner_mat(*rng.choice(INNER_MATS)))
+        elif r < inner + (1 - inner) * 0.6:
             out.append('n:' + enc(rng.choice(MAT_NODES)))
         else:
             out.append('s:' + enc(rng.choice(MAT_STRS)))
@@ -741,15 +883,25 @@ def fresh(w, as_expr=False):
     return copy.deepcopy(m)
 
 
-def fresh_list(w, as_expr=False):
-    return [] if w == '_' else [fresh(x, as_expr) for x in w.split(',')]
+def fresh_list(w, as_expr=False, soup=None, sources=None, op_kind='app'):
+    if w == '_':
+        return []
+    out = []
+    for x in w.split(','):
+        if x[0] in 'ic':                                # transplanted: the real, shared object
+            out.append(material(x, as_expr, soup, sources, op_kind))
+        else:
+            out.append(fresh(x, as_expr))
+    return out
 
 
 class Op(object):
     """A parsed op with its material objects (built once: the text of the material and the
     objects handed to the API are the same)."""
 
-    def __init__(self, op):
+    def __init__(self, op, soup=None, sources=None):
+        """`soup` (the document as it is now) is needed for `c:` material, `sources` registers
+        the snippet documents of `i:` material."""
         w = op.split(' ')
         self.op, self.kind = op, w[0]
         self.path = parse_path(w[1])
@@ -757,17 +909,17 @@ class Op(object):
         self.mats, self.nums = [], []
         k = self.kind
         if k == 'rep':
-            self.mats = fresh_list(w[2])
+            self.mats = fresh_list(w[2], False, soup, sources, 'rep')
         elif k == 'ins':
-            self.index, self.mats = int(w[2]), fresh_list(w[3])
+            self.index, self.mats = int(w[2]), fresh_list(w[3], False, soup, sources, 'ins')
         elif k == 'app':
-            self.mats = fresh_list(w[2])
+            self.mats = fresh_list(w[2], False, soup, sources, 'app')
         elif k == 'ren':
             self.name = dec(w[2])
         elif k == 'str':
             self.string = dec(w[2])
         elif k == 'args':
-            self.mats = fresh_list(w[2], as_expr=True)
+            self.mats = fresh_list(w[2], True, soup, sources, 'args')
         elif k == 'aop':
             self.sub = w[2]
             if self.sub in ('app', 'ext'):
@@ -1238,6 +1390,307 @@ def gen_history(rng, source, n, aop_share=0.2):
         except Exception:
             pass
     return ops
+
+
+# ----------------------------------------------------------------------------- transplanted nodes
+#
+# Histories in which a node that lived somewhere else (inside an argument / group / item of a
+# snippet document, or - as a `.copy()` - elsewhere in the same document) is added and then
+# itself deleted / replaced / removed at its new place.
+
+def alias_ids(soup):
+    """ids of the expression objects that occur at more than one place of the tree."""
+    seen, dup = set(), set()
+    for _, x in snapshot(soup):
+        if _is_expr(x):
+            (dup if id(x) in seen else seen).add(id(x))
+    return dup
+
+
+def alias_safe(soup, op, dup=None):
+    """While an expression object occurs at two places (after `c:` material), an op is only
+    well-defined if it does not edit *inside* such an object (that would change both places:
+    the library shares, the model copies): the container of ins/app, the holder chain of
+    del/rep and the target of ren/str/args/aop must lie outside."""
+    dup = alias_ids(soup) if dup is None else dup
+    if not dup:
+        return True
+    w = op.split(' ')
+    try:
+        chain = chain_of(soup, parse_path(w[1]))
+    except Exception:
+        return True
+    rel = chain[:-1] if w[0] in ('del', 'rep') else chain
+    return not any(id(e) in dup for e in rel)
+
+
+def copy_ok(soup, opath, cpath, tpath=None):
+    """May a `.copy()` of the node at `opath` be added to the container at `cpath` (or replace
+    the node at `tpath`, whose parent is at `cpath`)?  Well-defined in the library iff the new
+    parent node does not already hold the object in one of its own holders (its lookup is by
+    identity among the holders of the parent), the object does not get into itself, and no
+    object is aliased yet."""
+    from TexSoup import data as D
+    if not opath or alias_ids(soup):
+        return False
+    try:
+        o = chain_of(soup, opath)[-1]
+        cchain = chain_of(soup, cpath)
+    except Exception:
+        return False
+    if not isinstance(o, D.TexExpr):
+        return False
+    sub = _subtree_ids(o)
+    if any(id(e) in sub for e in cchain):
+        return False
+    c = cchain[-1] if cchain else soup.expr
+    if _is_text(c):
+        return False
+    held = list(c._contents)
+    for a in c.args:
+        if not _is_text(a):
+            held.extend(a._contents)
+    if any(x is o for x in held):
+        return False
+    if tpath is not None:
+        try:
+            t = chain_of(soup, tpath)[-1]
+        except Exception:
+            return False
+        if id(t) in sub or (isinstance(t, D.TexExpr) and id(o) in _subtree_ids(t)):
+            return False
+    return True
+
+
+def _track(soup, ops, op):
+    """Append op to the history and follow it on the real objects (as the runners do)."""
+    k = len(ops)
+    ops.append(op)
+    try:
+        P = Op(op, soup)
+        if resolve(soup, P)[0] != 'skip':
+            perform(soup, P, step_variant(k, op))
+        return P
+    except Exception:
+        return None
+
+
+_TWIN = {}
+
+
+def _standalone_twin(text):
+    """`n:` material with the same text, if the text parses on its own to that one element."""
+    if text not in _TWIN:
+        T = common.impl()
+        try:
+            c = T.TexSoup(text).expr._contents
+            _TWIN[text] = 'n:' + enc(text) if len(c) == 1 and str(c[0]) == text else None
+        except Exception:
+            _TWIN[text] = None
+    return _TWIN[text]
+
+
+def gen_transplant(rng, source, tail=3, allow_copy=True, prefix=2):
+    """A history: 0..prefix ordinary steps, one step that adds (append mostly; insert,
+    replace) a node taken from inside a snippet (`i:`) or a `.copy()` of a node of the document
+    (`c:`, if `allow_copy` and well-defined, see `copy_ok`), often next to a fresh textual twin
+    of it, then 1..tail steps most of which delete / replace that very node in its new place."""
+    T = common.impl()
+    soup = T.TexSoup(source)
+    ops = []
+    for _ in range(rng.randint(0, prefix)):
+        _track(soup, ops, gen_op(rng, soup))
+    targets, containers = enum_tree(soup)
+    good = [c for c in containers if c[2]._supports_contents()] or containers
+    kind = rng.choice(['app'] * 6 + ['ins'] * 2 + ['rep'] * 2)
+    if kind == 'rep' and not targets:
+        kind = 'app'
+    if kind == 'rep':
+        tpath, _ = rng.choice(targets)
+        cpath = tpath[:-1]
+    else:
+        cpath, ln, _ = rng.choice(good)
+        tpath = None
+    main = None
+    if allow_copy and targets and rng.random() < 0.4:
+        cands = [pth for pth, _ in targets if copy_ok(soup, pth, cpath, tpath)]
+        if cands:
+            opath = rng.choice(cands)
+            main = 'c:' + show_path(opath)
+            text = str(chain_of(soup, opath)[-1])
+    if main is None:
+        doc_text = str(soup)
+        pool = [m for m in INNER_MATS if inner_text(*m) in doc_text] if rng.random() < 0.7 else []
+        src, sel = rng.choice(pool or INNER_MATS)
+        main, text = inner_mat(src, sel), inner_text(src, sel)
+    mats = [main]
+    if rng.random() < 0.5:
+        tw = _standalone_twin(text) or gen_mats(rng, 1, 1, 0)
+        mats.insert(rng.randint(0, 1), tw)
+    if rng.random() < 0.25:
+        mats.insert(rng.randint(0, len(mats)), gen_mats(rng, 1, 1, 0))
+    m = ','.join(mats)
+    if kind == 'rep':
+        op = 'rep %s %s' % (show_path(tpath), m)
+    elif kind == 'ins':
+        op = 'ins %s %d %s' % (show_path(cpath), rng.randint(0, ln), m)
+    else:
+        op = 'app %s %s' % (show_path(cpath), m)
+    P = _track(soup, ops, op)
+    added = [x for x, w in zip(P.mat_exprs(), mats) if w[0] in 'ic'] if P is not None else []
+    for _ in range(rng.randint(1, tail)):
+        places = [pth for pth, x in snapshot(soup) if any(x is a for a in added)]
+        if places and rng.random() < 0.7:
+            pth = show_path(list(rng.choice(places)))
+            if rng.random() < 0.5:
+                op = 'del ' + pth
+            else:
+                tw = _standalone_twin(text)
+                op = 'rep %s %s' % (pth, (tw + ',' if tw and rng.random() < 0.3 else '') + gen_mats(rng, 1, 2))
+        else:
+            op = None
+            for _try in range(8):
+                cand = gen_op(rng, soup)
+                if alias_safe(soup, cand):
+                    op = cand
+                    break
+            if op is None:
+                break
+        _track(soup, ops, op)
+    return ops
+
+
+def transplant_pairs(source, rng=None, cap=None):
+    """[(ops, variant)]: for (up to `cap`) containers of the document, every `INNER_MATS` node and
+    the first well-defined `.copy()`s of nodes of the document appended (alone / behind a fresh
+    textual twin) or inserted at 0, then that very node deleted (both spellings) or replaced
+    (both spellings) at its new place."""
+    T = common.impl()
+    base = T.TexSoup(source)
+    targets, containers = enum_tree(base)
+    good = [c for c in containers if c[2]._supports_contents()]
+    if cap is not None and len(good) > cap:
+        good = [good[0]] + (rng or __import__('random').Random(0)).sample(good[1:], cap - 1)
+    out = []
+    for cpath, ln, _ in good:
+        c = show_path(cpath)
+        mats = [(inner_mat(*m), inner_text(*m)) for m in INNER_MATS]
+        n = 0
+        for opath, x in targets:
+            if n < 3 and copy_ok(base, opath, cpath):
+                mats.append(('c:' + show_path(opath), str(x)))
+                n += 1
+        for m, text in mats:
+            tw = _standalone_twin(text)
+            firsts = [('app %s %s' % (c, m), ln), ('ins %s 0 %s' % (c, m), 0)]
+            if tw:
+                firsts.append(('app %s %s,%s' % (c, tw, m), ln + 1))
+            for op1, at in firsts:
+                p = show_path(list(cpath) + [('b', at)])
+                for v in (0, 1):
+                    out.append(([op1, 'del ' + p], v))
+                    out.append(([op1, 'rep %s s:%s,n:%s' % (p, enc('NEW'), enc('\\x{1}'))], v))
+    return out
+
+
+def run_transplant(source, ops, variant=None, stats=None):
+    """The steps of a history on the implementation alone, each against the string reference
+    (`resolve`): after every step str(soup) is the spliced text, a refused edit changed
+    nothing, the snippet documents of transplanted material are unchanged (`Sources`), and -
+    as long as no object occurs twice - untargeted nodes are where they were.  `variant`
+    forces the API spelling of the last step.  None or (key, what, step).
+
+    Counted exclusion (`aliased_inner_edit`): once a `.copy()` makes an object occur twice, a
+    step that edits inside that object is not well-defined (both places would change); the
+    history ends there."""
+    T = common.impl()
+    soup = T.TexSoup(source)
+    sources = Sources()
+    ref = str(soup)
+    stats = stats if stats is not None else {}
+
+    def bump(k, n=1):
+        stats[k] = stats.get(k, 0) + n
+    for k, op in enumerate(ops):
+        try:
+            P = Op(op, soup, sources)
+        except Exception:
+            bump('skip')
+            continue
+        res = resolve(soup, P)
+        if res[0] == 'skip':
+            bump('skip')
+            continue
+        dup = alias_ids(soup)
+        if dup and not alias_safe(soup, op, dup):
+            bump('aliased_inner_edit')
+            break
+        before = snapshot(soup)
+        texts = frozen_text(before)
+        sources.begin(soup, P.kind, P.path)
+        v = variant if (variant is not None and k == len(ops) - 1) else step_variant(k, op)
+        exc = None
+        try:
+            perform(soup, P, v)
+        except RecursionError:
+            raise
+        except Exception as e:
+            exc = e
+        now = str(soup)
+        want = ref if res[0] == 'refuse' else ref_apply(ref, res[1])
+        call = _call_text(P, v)
+        if any(w[0] in 'ic' for w in _mat_words(op)):
+            bump('transplant_steps')
+        if now != want or (exc is not None and res[0] == 'splice'):
+            how = 'must be refused (%s)' % res[1] if res[0] == 'refuse' else \
+                'must splice %s' % [(a, a + n, new) for a, n, new in res[1]]
+            return ('%s-not-local' % {'del': 'delete' if v else 'remove', 'rep': 'replace', 'ins': 'insert',
+                                       'app': 'insert'}.get(P.kind, 'edit'),
+                    'step %d: %s%s %s; expected %r, got %r' % (
+                        k, call, ' raised %s (%s)' % (type(exc).__name__, str(exc)[:80]) if exc else '', how,
+                        want[:200], now[:200]), k)
+        msg = sources.check()
+        if msg:
+            return ('source-document-changed', 'step %d: %s: %s' % (k, call, msg), k)
+        ref = want
+        bump('refused' if exc is not None or res[0] == 'refuse' else 'applied')
+        if exc is not None or res[0] == 'refuse':
+            continue
+        if not dup and not alias_ids(soup):
+            msg = check_untouched(before, soup, res[2]) or check_texts(before, texts, soup, res[2])
+            if msg:
+                return ('untargeted-changed', 'step %d: %s: %s' % (k, call, msg), k)
+    bump('source_inner_edit', sources.excluded)
+    return None
+
+
+def _mat_words(op):
+    w = op.split(' ')
+    if w[0] in ('rep', 'app', 'args') and len(w) > 2:
+        return [] if w[2] == '_' else w[2].split(',')
+    if w[0] == 'ins' and len(w) > 3:
+        return [] if w[3] == '_' else w[3].split(',')
+    return []
+
+
+def mat_show(m):
+    if m[0] == 's':
+        return repr(dec(m[2:]))
+    if m[0] == 'i':
+        src, sel = m[2:].split('@')
+        return 'node at %s of TexSoup(%r)' % (sel, dec(src))
+    if m[0] == 'c':
+        return 'copy() of the node at %s' % m[2:]
+    return 'node(%s)' % dec(m[2:])
+
+
+def _call_text(P, v):
+    ms = ', '.join(mat_show(m) for m in _mat_words(P.op))
+    p = show_path(P.path)
+    return {'del': 'node.delete()' if v else 'node.parent.remove(node)',
+            'rep': ('node.replace_with(%s)' if v else 'node.parent.replace(node, %s)') % ms,
+            'ins': 'node.insert(%s, %s)' % (P.index, ms), 'app': 'node.append(%s)' % ms}.get(P.kind, P.op) \
+        + ' with node at ' + p
 
 
 if __name__ == '__main__':
